@@ -609,7 +609,7 @@ class CallMixin(object):
                 ok = (x.id, nm.py) in s.heap or (x.cls is not None and (x.cls.find_method(nm.py)[1] is not None or x.cls.has_const(nm.py)))
                 yield s, BoolV(bool(ok))
             elif isinstance(x, (SeqV, TupV, PyListV, ListV, IntV, BoolV, NoneV)) or (isinstance(x, RefV) and x.kind == 'list'):
-                if nm.py in ('get', 'setdefault', 'items', 'keys', 'peek', 'sent'):
+                if nm.py in ('get', 'setdefault', 'items', 'keys', 'peek', 'sent', '__call__'):
                     yield s, BoolV(False)
                 elif nm.py == '__len__':
                     yield s, BoolV(not isinstance(x, (IntV, BoolV, NoneV)))
